@@ -28,7 +28,8 @@ MANIFEST = dict(
          "for a failing input; the Lean driver only echoes this kind. Known findings (each reproduced under -race): connectableObservableImpl.subject / .subscription outside s.mu; ObserveOn/SubscribeOn (detachOn) and ToChannel teardown closing the hand-off channel "
          "under a sending callback. Found by this check, confirmed under -race and repaired in the repository since (no longer excused): Share's sourceSubscription read after Unlock, BufferWithCount.buffer and "
          "GroupBy.groups reset by the teardown, MergeMapI's shared index, OnErrorResumeNextWith's rewritten slice."
-         ' Premise C02b (constructor table) among the modules; scenarios multiArity (every PipeN arity under concurrent subscriptions) and promPipe (two goroutines subscribing the same instrumented pipeline).',
+         ' Premise C02b (constructor table) among the modules; scenarios multiArity (every PipeN arity under concurrent subscriptions) and promPipe (two goroutines subscribing the same instrumented pipeline).'
+         ' Scenario promBuild: several goroutines each build and run an instrumented pipeline from one CollectorConfig value with a non-nil ConstLabels map.',
     technique="Lean 4 lockset theorem (invariant by induction over schedules) + kernel-decided per-pair predicate over the access table regenerated from source by a lexical lock-region / emission-context analysis + race-detector runs validating the table",
     ref='5/C13')
 
